@@ -1977,6 +1977,13 @@ class Exists(QuantifiedConditional):
             for v in self.variable._unique_variables_
             if not isinstance(v.value, Literal) and v.id_ in result.bindings
         )
+        # A collection that is flattened on the way to the quantified value (box.parts for box.parts.links) ranges over
+        # several elements for one value of its variables, every element is a value of its own.
+        identity += tuple(
+            result.bindings[expression._id_].id_
+            for expression in self.variable._descendants_
+            if isinstance(expression, Flatten) and expression._id_ in result.bindings
+        )
         return identity or (result.bindings[self.variable._id_].id_,)
 
     def _invert_(self):
